@@ -138,7 +138,7 @@ def coq_makefile():
             raise RuntimeError("coq_makefile failed:\n" + o)
 
 
-def make_targets(targets, timeout=1500):
+def make_targets(targets, timeout=900):
     """full .vo build of the given targets (and what they depend on); returns (ok, log)"""
     coq_makefile()
     rc, o = sh(["make", "-k", "-j%d" % NCPU] + targets, cwd=COQ, timeout=timeout)
